@@ -54,7 +54,7 @@ impl Prop for C14 {
                 for _ in 0..renewals {
                     let k = rng.range(0, 5);
                     traffic(rng, out, k);
-                    out.push("cRenew".to_string());
+                    out.push(if rng.chance(1, 6) { "cRenewSame" } else { "cRenew" }.to_string());
                     // drive the handshake to completion with a little interleaved traffic
                     for _ in 0..rng.range(4, 12) {
                         let op = match rng.weighted(&[1, 1, 5, 5, 4]) {
@@ -81,7 +81,7 @@ impl Prop for C14 {
             for _ in 0..len {
                 let op = match rng.weighted(&[5, 3, 7, 5, 7, 4, 1, 1]) {
                     0 => "cSend".to_string(),
-                    1 => "cRenew".to_string(),
+                    1 => if rng.chance(1, 5) { "cRenewSame".to_string() } else { "cRenew".to_string() },
                     2 => "sStep".to_string(),
                     3 => "sSend".to_string(),
                     4 => "cStep".to_string(),
@@ -124,6 +124,8 @@ enum Tag {
     Msg { epoch: u32, forged: bool },
     RenewReq,
     RenewResp(u32),
+    /// a ServiceFault answer to an OPN request
+    Fault,
 }
 
 struct World {
@@ -138,6 +140,7 @@ struct World {
     c2s: VecDeque<(Vec<u8>, Tag)>,
     s2c: VecDeque<(Vec<u8>, Tag)>,
     pend: Option<SupportedMessage>,
+    pend_fault: Option<SupportedMessage>,
     outstanding: bool,
     seq: u32,
     // oracle bookkeeping (from observed token ids only)
@@ -236,6 +239,7 @@ impl World {
             c2s: VecDeque::new(),
             s2c: VecDeque::new(),
             pend: None,
+            pend_fault: None,
             outstanding: false,
             seq: 1,
             s_seen_new: true,
@@ -244,7 +248,7 @@ impl World {
         // the initial Issue, through the same code paths
         let req = w.cst.verif_begin_issue_or_renew(SecurityTokenRequestType::Issue);
         let bytes = secure(&w.cli.read(), 1, &req);
-        let resp = w.server_opn(&bytes).expect("issue");
+        let (resp, _) = w.server_opn(&bytes).expect("issue");
         let chunk = w.cli.write().verify_and_remove_security(&resp).expect("issue resp");
         let msg = Chunker::decode(&[chunk], &w.cli.read(), None).expect("issue decode");
         w.cst.verif_end_issue_or_renew(msg).expect("issue end");
@@ -257,13 +261,14 @@ impl World {
     }
 
     /// server side handling of an OPN chunk; returns the secured response bytes
-    fn server_opn(&mut self, bytes: &[u8]) -> Result<Vec<u8>, StatusCode> {
+    fn server_opn(&mut self, bytes: &[u8]) -> Result<(Vec<u8>, bool), StatusCode> {
         let chunk = self.srv.verify_and_remove_security(bytes)?;
         let header = chunk.security_header(&self.srv.decoding_options())?;
         let msg = Chunker::decode(&[chunk], &self.srv, None)?;
         let resp = self.svc.open_secure_channel(&mut self.srv, &header, 0, &msg)?;
         let s = self.next_seq();
-        Ok(secure(&self.srv, s, &resp))
+        let is_fault = matches!(resp, SupportedMessage::ServiceFault(_));
+        Ok((secure(&self.srv, s, &resp), is_fault))
     }
 
     fn c_epoch(&self) -> u32 {
@@ -328,10 +333,32 @@ impl Runner for R {
                 w.outstanding = true;
                 ("ok queued".into(), Verdict::Ok)
             }
+            ["cRenewSame"] => {
+                if w.outstanding {
+                    return ("ok idle".into(), Verdict::Ok);
+                }
+                // a Renew that reuses the client nonce of the previous Issue/Renew
+                let prev = w.cli.read().local_nonce().to_vec();
+                let mut req = w.cst.verif_begin_issue_or_renew(SecurityTokenRequestType::Renew);
+                if let SupportedMessage::OpenSecureChannelRequest(ref mut r) = req {
+                    r.client_nonce = if prev.is_empty() { ByteString::null() } else { ByteString::from(prev.clone()) };
+                }
+                w.cli.write().set_local_nonce(&prev);
+                let s = w.next_seq();
+                let bytes = secure(&w.cli.read(), s, &req);
+                w.c2s.push_back((bytes, Tag::RenewReq));
+                w.outstanding = true;
+                ("ok queued".into(), Verdict::Ok)
+            }
             ["sStep"] => match w.c2s.pop_front() {
                 None => ("ok idle".into(), Verdict::Ok),
                 Some((bytes, Tag::RenewReq)) => match w.server_opn(&bytes) {
-                    Ok(resp) => {
+                    Ok((resp, true)) => {
+                        // a ServiceFault: nothing changed on the server
+                        w.s2c.push_back((resp, Tag::Fault));
+                        ("ok faulted".into(), Verdict::Ok)
+                    }
+                    Ok((resp, false)) => {
                         let e = w.s_epoch();
                         w.s2c.push_back((resp, Tag::RenewResp(e)));
                         w.s_seen_new = false;
@@ -367,7 +394,7 @@ impl Runner for R {
                     }
                     (format!("ok {} {}", if accepted { "accepted" } else { "rejected" }, epoch), v)
                 }
-                Some((_, Tag::RenewResp(_))) => ("ok idle".into(), Verdict::Ok),
+                Some((_, Tag::RenewResp(_))) | Some((_, Tag::Fault)) => ("ok idle".into(), Verdict::Ok),
             },
             ["cStep"] => match w.s2c.pop_front() {
                 None => ("ok idle".into(), Verdict::Ok),
@@ -420,9 +447,35 @@ impl Runner for R {
                     (format!("ok {} {}", if accepted { "accepted" } else { "rejected" }, epoch), v)
                 }
                 Some((_, Tag::RenewReq)) => ("ok idle".into(), Verdict::Ok),
+                Some((bytes, Tag::Fault)) => {
+                    // a MSG chunk under the server's unchanged keys carrying a ServiceFault
+                    let r = w.cli.write().verify_and_remove_security(&bytes);
+                    match r.and_then(|chunk| Chunker::decode(&[chunk], &w.cli.read(), None)) {
+                        Ok(msg) => {
+                            w.pend_fault = Some(msg);
+                            ("ok fault".into(), Verdict::Ok)
+                        }
+                        Err(err) => (
+                            format!("err fault {}", err),
+                            Verdict::fail("accept_current_token", "client-fault-answer", format!("client rejected the fault answer: {}", err)),
+                        ),
+                    }
+                }
             },
             ["cApply"] => match w.pend.take() {
-                None => ("ok idle".into(), Verdict::Ok),
+                None => match w.pend_fault.take() {
+                    None => ("ok idle".into(), Verdict::Ok),
+                    Some(msg) => {
+                        // the session task sees the fault: the renewal failed, keys stay as they are
+                        let r = w.cst.verif_end_issue_or_renew(msg);
+                        w.outstanding = false;
+                        if r.is_err() {
+                            ("ok renew-failed".into(), Verdict::Ok)
+                        } else {
+                            ("err fault-applied".into(), Verdict::fail("renew_succeeds", "fault-applied", "a ServiceFault was applied as a token"))
+                        }
+                    }
+                },
                 Some(msg) => match w.cst.verif_end_issue_or_renew(msg) {
                     Ok(()) => {
                         w.outstanding = false;
